@@ -40,7 +40,7 @@ RULE = ("crypt_open: handler variants R2 (40 bit), R3 (40..128 step 8), R4 (V2 /
         "non-UTF-8 passwords, two /CF entries of different /Length under every /StmF,/StrF choice); crypt_dec: Decoder::with_methods with arbitrary key/size/methods on valid and malformed ciphertexts; crypt_doc: whole files written "
         "by tools/oracle/pdfwriter.py (tables and xref streams, object streams, direct/indirect /Encrypt, metadata stream with EncryptMetadata on/off, "
         "strings nested in dictionaries/arrays, streams with no/ASCIIHex/ASCII85/Flate filters, generations > 0) read through Storage + Resolve; "
-        "crypt_open_file (no model): such files (R2, R3, V4 RC4 / AESV2, R5, R6, /StmF != /StrF; /Encrypt indirect) opened through the public "
+        "crypt_open_file (no model): such files (R2, R3, V4 RC4 / AESV2, R5, R6, /StmF != /StrF; /Encrypt an indirect object or a direct dictionary of the trailer, finding C06-e) opened through the public "
         "FileOptions::cached()/uncached()[.password(pw)].load with the user, the owner, two wrong and no password: accepted -> page count, "
         "typed /Info /Title and all leaves are the plaintext, otherwise -> error kind InvalidPassword; "
         "rc4: keys of 0..257 bytes.  non-trivial = at least 2 bytes of input; distinct by full case line")
@@ -676,6 +676,14 @@ def file_open_cases_for(rng, h, tags=(), **kw):
     return out
 
 
+def encrypt_direct_witness():
+    """finding C06-e: a document whose trailer holds /Encrypt as a direct dictionary, opened through FileOptions with the user password"""
+    import random
+    h = S.Handler(4, "AESV2", 16, b"user", b"owner", -4, b"0123456789abcdef", V=4, file_key=bytes(range(32)))
+    cs = file_open_cases_for(random.Random(607), h, tags=["encrypt-direct"], fmt="table", with_meta=False, enc_indirect=False)
+    return [c for c in cs if "user" in c.tags][0]
+
+
 def file_open_cases(rng, tier):
     out = []
     reps = 1 if tier == "quick" else 12
@@ -686,12 +694,10 @@ def file_open_cases(rng, tier):
             upw = b"" if (k + rep) % 3 == 0 else rng.choice([p for p in pool if p])
             h = make_handler(rng, var, upw=upw)
             fmt = rng.choice(["table", "stream"])
-            # /Encrypt is always an indirect object here: a trailer whose /Encrypt is a direct dictionary (allowed by ISO 32000-1
-            # Table 15, accepted by Storage::load_storage_and_trailer_password and read correctly by crypt_doc) is refused by
-            # File::load_data with the right password (Trailer.encrypt_dict is an RcRef: "expected Reference, found Dictionary"
-            # under the strict options FileOptions uses) — a defect of the library outside this strengthening, reported, not generated
+            # /Encrypt as an indirect object and as a direct dictionary of the trailer (ISO 32000-1 Table 15 allows both; the direct
+            # spelling was refused by File::load_data until finding C06-e was repaired: Trailer.encrypt_dict demanded a reference)
             out += file_open_cases_for(rng, h, fmt=fmt, objstm=fmt == "stream" and rng.random() < 0.6, with_meta=rng.random() < 0.7,
-                                       enc_indirect=True)
+                                       enc_indirect=(k + rep) % 2 == 0 if tier == "quick" else rng.random() < 0.5)
     return out
 
 
@@ -802,6 +808,8 @@ def witness_case(f, c):
     elif f["id"] == "C06-b":
         h = S.Handler(4, "V2", 16, b"user", b"owner", -4, b"0123456789abcdef", V=4, str_method="Identity")
         w = doc_case(rng, h, with_meta=False, tags=["strf-identity"])
+    elif f["id"] == "C06-e":
+        w = encrypt_direct_witness()
     else:
         return c
     w.kind, w.note = "witness", f["id"]
